@@ -72,7 +72,7 @@ func TestDevC12Timing(t *testing.T) {
 			var durs []string
 			for i := 0; i < 3; i++ {
 				t0 := time.Now()
-				o, _ := c12RunOnce(env, root)
+				o, _ := c12RunOnce(env, root, 0)
 				durs = append(durs, fmt.Sprintf("%dms(exit %d)", time.Since(t0).Milliseconds(), o.Exit))
 				if i == 0 && o.Out != nil && k < len(*o.Out) {
 					os.WriteFile(filepath.Join(root, filepath.FromSlash(pg.OutPath)), []byte((*o.Out)[:k]), 0o644)
